@@ -75,11 +75,26 @@ def run(ctx):
         ctx.add("C01.R7", "sta_rs::Message::generate#encrypt-call", False, "expected one Ciphertext::new call", at)
     else:
         data = cn[0]["argv"][1]
-        parts = Q.parts_of(data)
+        parts = Q.split_chain_loops(Q.parts_of(data))
         ctx.extra["payload_parts"] = str(parts)[:600]
+        # `once(m).chain(aux.as_ref().map(..)).for_each(store)`: an optional tail - present exactly when the Option is Some
+        opt_tail = [p_ for p_ in parts if p_[0] == "opt"]
+        opt_view_of_aux = False
+        if len(opt_tail) == 1 and parts[-1] is opt_tail[0]:
+            E = opt_tail[0][1]
+
+            def _dz(f, v_):
+                return f[0].op == "discr" and Q.path_of(f[0].args[0]) == "aux" and f[1:] == ("eq", v_)
+            opt_view_of_aux = all((a_[0] == 1 and any(_dz(f, 1) for f in a_[3])) or (a_[0] == 0 and any(_dz(f, 0) for f in a_[3]))
+                                  for a_ in E.args[1]) and len(E.args[1]) == 2
+            head = [p_ for p_ in parts[:-1]]
+
+            def _norm(seq):
+                return [("part", Q_strip(p_[1])) if p_[0] == "part" else p_ for p_ in seq]
+            parts = [("alt", [_norm(head), _norm(head + list(opt_tail[0][2]))])]
         def lp_pair(a, b):
             return a[0] == "part" and b[0] == "part" and a[1].op == "bytes_of" and a[1].args[1] == 4 and \
-                Q.contains(a[1], lambda x: x.op == "len" and x.args[0] is b[1])
+                Q.contains(a[1], lambda x: x.op == "len" and (x.args[0] is b[1] or Q_strip(x.args[0]) is Q_strip(b[1])))
         ix = fidx(ctx, "sta_rs::MessageGenerator", "x")
         alts = []
         if parts and parts[0][0] == "alt":
@@ -100,7 +115,11 @@ def run(ctx):
         # the aux chunk is appended iff aux is Some: facts at the appending call = facts at the join + {aux is Some}
         sb = [e for e in Q.calls(eng, "adss::store_bytes")          # in generate itself or in a helper it calls
               if Q.params(Q.leaves(e["argv"][0])) == {"aux.v1.0.0"}]
-        if len(sb) == 1:
+        if opt_view_of_aux and not sb:
+            ctx.add("C01.R7", "sta_rs::Message::generate#aux-iff-some", True,
+                    "the aux chunk is the tail of an iteration over a view of `aux` as an Option: written exactly when aux is Some",
+                    cn[0]["at"], sample=["optional tail over a view of aux"])
+        elif len(sb) == 1:
             f_app = Q.closure(eng, eng.facts_at(sb[0]["frame"], sb[0]["block"]))
             f_join = Q.closure(eng, eng.facts_at(cn[0]["frame"], cn[0]["block"]))
             extra = [f for f in f_app - f_join]
@@ -190,6 +209,15 @@ def adss_cipher_agreement(ctx, rule):
         else:
             ctx.add(rule, "adss#owf", False, "C/D/M/R are not cipher outputs: %s %s %s %s" % (S(Cc, 2), S(Dd, 2), S(Mm, 2), S(Rr, 2)), at)
 
+
+
+def Q_strip(t):
+    """a byte value behind reference / copy wrappers"""
+    n = 0
+    while is_t(t) and t.op in ("deref", "refv", "conv") and len(t.args) == 1 and n < 8:
+        t = t.args[0]
+        n += 1
+    return t
 
 
 def payload_cipher_agreement(ctx, rule):
